@@ -293,18 +293,21 @@ fn main() {
             (all17.clone(), 2, vec![0, 1, 2], 2, vec![11], vec!['C']),
             // creator vs sender of the create event (legal before v11)
             (vec![14, 7, 17, 9], 3, vec![1, 2], 3, vec![10], vec!['E', 'D']),
+            // knocks racing join-rule changes, in the versions that have knocking but not yet knock_restricted
+            (vec![17, 18, 19, 7], 3, vec![1, 2], 2, vec![9, 7], vec!['A']),
         ],
         // cheapest first, so that the wall cap (if it is ever hit) cuts only the last, largest pass
         Tier::Thorough => vec![
             (all.clone(), 3, vec![0, 1, 2], 3, vec![11, 6, 2], vec!['A', 'B']),
             (all17.clone(), 3, vec![0, 1, 2], 3, vec![11, 6], vec!['C']),
             (vec![14, 7, 17, 9, 3, 4], 3, vec![0, 1, 2], 3, vec![10, 6], vec!['E', 'D']),
+            (vec![17, 18, 19, 7, 8, 3], 4, vec![0, 1, 2], 3, vec![7, 8, 9, 10], vec!['A']),
             (vec![14, 15, 16, 9, 13, 11], 5, vec![2], 2, vec![11], vec!['A']),
             (vec![0, 1, 2, 3, 4, 6, 7, 9, 10, 13], 4, vec![1, 2], 2, vec![11], vec!['A', 'B']),
         ],
     };
     report.set_rule(&format!(
-        "S: passes (templates of 17, depth, timestamp classes, triple depth, room versions, base rooms) = {passes:?}: every room history reachable by appending \
+        "S: passes (templates of 20, depth, timestamp classes, triple depth, room versions, base rooms) = {passes:?}: every room history reachable by appending \
          <= depth events from the pass's templates (power-level changes by creator/mod, ban, kick, join, leave, join-rule changes, topic/name by \
          mod/user/creator; prev = every 1- or 2-subset of base tip + appended nodes that is not an ancestor pair; timestamp earlier than all / \
          equal to prev / later) to base room A (with power levels), B (without) or C (A followed by an abandoned power-levels fork, a topic under it, a competing power-levels event and a merging power-levels event); an event exists only if the real auth_check accepts it; after \
